@@ -8,4 +8,4 @@
 /* what a successful first request in user-workspace mode guarantees: block of b bytes at the old top1, moved up by at most 7 bytes for alignment */
 #define EXP_B ((*prev_len) * LWORD(type))
 #define EXP_X (stack.top1 - OLD(stack.top1) - EXP_B)
-#define EXP_USTACK_POST (EXP_B + OLD(stack.used) < stack.size && 0 <= EXP_X && EXP_X <= 7 && stack.used == OLD(stack.used) + EXP_B + EXP_X && RET == (void*)(in_work + g_skew + OLD(stack.top1) + EXP_X) && ((type == LSUB || type == USUB) ==> EXP_X == 0) && ((type == LUSUP || type == UCOL) ==> ((OLD(stack.top1) + EXP_X + g_skew) & 7) == 0) && OLD(stack.top1) + EXP_B < stack.top2)
+#define EXP_USTACK_POST (0 <= stack.top1 && stack.top1 <= 16777216 && -16777216 <= stack.used && stack.used <= 16777216 && EXP_B + OLD(stack.used) < stack.size && 0 <= EXP_X && EXP_X <= 7 && stack.used == OLD(stack.used) + EXP_B + EXP_X && RET == (void*)(in_work + g_skew + OLD(stack.top1) + EXP_X) && ((type == LSUB || type == USUB) ==> EXP_X == 0) && ((type == LUSUP || type == UCOL) ==> ((OLD(stack.top1) + EXP_X + g_skew) & 7) == 0) && OLD(stack.top1) + EXP_B < stack.top2)
